@@ -19,9 +19,10 @@ TRUSTED_BASE = [
     "one receiver is modelled: receivers share no state (each index of a Mailboxes IncMap is its own object)",
 ]
 ASSUMPTIONS = [
-    "absent connection failure: the resend path of tcpMailboxesRemote.Commit (taken when the commit acknowledgement does not arrive "
-    "within the write time-out) is not an event of the model; a harness case in which the implementation logged that path is "
-    "excluded from the oracle and counted (commit_resend)",
+    "absent connection failure: the resend path of tcpMailboxesRemote.Commit is not an event of the model, because in the model (theorem "
+    "commit_ack_independent_of_receiver) a handler that holds an unprocessed commit record is never blocked on the receive queue: the "
+    "acknowledgement cannot be delayed by a slow or stopped receiver, only by a failed connection or a handler goroutine that is not "
+    "scheduled for longer than the write time-out. The harness never excludes a case for having taken that path: the oracle judges it",
     "CustomInChan's TRUE on time-out is a tick, not a message",
 ]
 RULE = ("cases = scripted schedules from one PRNG (VERIF_SEED) over 127.0.0.1:0 sockets / Go channels: kinds tcp (1-3 senders), relaxed, "
@@ -30,7 +31,7 @@ RULE = ("cases = scripted schedules from one PRNG (VERIF_SEED) over 127.0.0.1:0 
         "full receive queue, large values that fill the socket buffers (write time-out, reconnect); every case ends with a drain. "
         "Non-trivial = >= 2 senders or >= 1 abort on each side; distinct by canonical op text.")
 
-READ_MS, WRITE_MS, DIAL_MS = 20, 40, 150
+READ_MS, WRITE_MS, DIAL_MS = 20, 60, 150
 
 
 # ------------------------------------------------------------------ python simulation (generator guidance only)
@@ -278,10 +279,10 @@ def expand(case, out):
                 ops.append(["big", s, i, pad]); res.append({"st": "abort", "v": None}); continue
             ops.append(["big", s, i, pad]); res.append({"st": "ok", "v": None})
             if tcp:
-                ops.append(["pc", s]); res.append({"st": "ok" if code == "ok" else "abort", "v": None})
-                if code != "ok":
+                ops.append(["pc", s]); res.append({"st": "ok" if code in ("ok", "pending") else "abort", "v": None})
+                if code not in ("ok", "pending"):
                     continue
-            ops.append(["c", s]); res.append({"st": "ok", "v": None})
+            ops.append(["c", s]); res.append({"st": "pending" if code == "pending" else "ok", "v": None})
     if len(rs) < len(case["ops"]):
         ops += case["ops"][len(rs):]
     return ops, res
@@ -461,6 +462,8 @@ def to_items(case, ops, out):
         elif name == "c":
             s = op[1]; kd = kinds[s]
             if kd == "tcp" and phase[s] == "preok":
+                if st == "pending":
+                    return items, "Commit of sender %d did not get its acknowledgement (in the model the handler acknowledges a commit record without waiting for the receive queue: commit_ack_independent_of_receiver)" % s
                 items.append("IEv (SCommit %d) ONone" % s); items.append("IEv (SComAck %d) ONone" % s); phase[s] = "idle"
             elif kd == "out" and phase[s] == "writing":
                 items.append("IEv (OCommit %d) ONone" % s); phase[s] = "idle"
@@ -495,6 +498,15 @@ def to_items(case, ops, out):
     return items, None
 
 
+def run_chunks(cases, timeout=1500, chunk=20):
+    """one harness process per chunk: a Commit that never completes (its goroutine retries for ever) dies with its process"""
+    res, errs, rc = [], "", 0
+    for i in range(0, len(cases), chunk):
+        rc1, res1, err1 = vlib.run_jsonl("c06", cases[i:i + chunk], timeout=timeout)
+        res += res1; errs += err1[-500:]; rc = rc or rc1
+    return rc, res, errs
+
+
 def corpus():
     out = []
     d = os.path.join(vlib.VERIF, "corpus", "C06")
@@ -525,7 +537,7 @@ def run(ctx):
     for k, c in enumerate(cases):
         c["id"] = k
     plain = cases
-    rc, res, err = vlib.run_jsonl("c06", [strip(c) for c in plain], timeout=1500)
+    rc, res, err = run_chunks([strip(c) for c in plain])
     byid = {r["id"]: r for r in res}
     if rc != 0 or len(byid) != len(plain):
         ctx.breaks.append({"what": "harness c06 failed (rc=%d, %d/%d results)" % (rc, len(byid), len(plain)), "detail": err[-2000:]})
@@ -540,7 +552,7 @@ def run(ctx):
             byid[r["id"]] = r
     ctx.extra["retried_after_load_dependent_outcome"] = len(retry)
     dist = {"tcp": 0, "relaxed": 0, "chan": 0, "custom_in_chan": 0, "steps": 0, "sender_aborts": 0, "precommit_timeouts": 0,
-            "write_timeouts": 0, "receiver_aborts": 0, "read_timeouts": 0, "len_calls": 0, "commit_resend_excluded": 0, "not_run": 0,
+            "write_timeouts": 0, "receiver_aborts": 0, "read_timeouts": 0, "len_calls": 0, "not_run": 0,
             "messages_received": 0}
     for c in cases:
         o = byid[c["id"]]
@@ -567,9 +579,9 @@ def run(ctx):
         if o.get("err"):
             ctx.breaks.append({"what": "harness reported an error on a case: " + o["err"][:200], "case": strip(c), "impl": o})
         if o.get("commit_resend"):
-            # outside the statement's hypothesis (connection failure / commit acknowledgement lost)
-            dist["commit_resend_excluded"] += 1; c["_skipped"] = True
-            continue
+            # tcpMailboxesRemote.Commit did not get its acknowledgement within the write time-out and went through its
+            # resend loop.  The connection did not fail (loopback), so this is inside the statement: the oracle judges it
+            dist["commit_resend_seen"] = dist.get("commit_resend_seen", 0) + 1
         for sig, what in oracle(c, ops, o):
             ctx.failures.append({"signature": sig, "what": what, "case": dict(strip(c), ops=ops), "obs": o})
     ctx.extra["input_distribution"] = dist
@@ -621,7 +633,7 @@ def run(ctx):
                     o = by2[c["id"]]
                     ops, flat_res = expand(c, o)
                     c["_ops"], c["_out"] = ops, dict(o, res=flat_res)
-                    if not c["_out"].get("commit_resend"):
+                    if True:
                         for sig, what in oracle(c, ops, c["_out"]):
                             ctx.failures.append({"signature": sig, "what": what, "case": dict(strip(c), ops=ops), "obs": c["_out"]})
             mm, probs = coq_mismatches(suspects, "recheck")
